@@ -72,13 +72,31 @@ theorem collect_mem {f : Node → Except AErr (List Item)} {ns : List Node} {js 
         · obtain ⟨l, hl, hmem⟩ := ih hks hn'
           exact ⟨l, hl, fun i hi => List.mem_append_right _ (hmem i hi)⟩
 
-theorem compat_tag_ok {E : Env} (hE : EnvWF E) {t : TagDef} (ht : t ∈ E.tags) :
-    ∃ l, compatibleNames E.units t.unit = .ok l := by
-  cases hu : t.unit with
-  | none => exact ⟨_, rfl⟩
+theorem compatibleNames_error {T : UnitSys} (hT : T.WF = true) {u : Option String} {e : Err}
+    (h : compatibleNames T u = .error e) : e = .invalidUnit := by
+  cases u with
+  | none => simp [compatibleNames] at h
   | some u =>
-    obtain ⟨q, hq⟩ := hE.2 t ht u hu
-    exact compatibleNames_ok hE.1 hq
+    cases hq : quantityOf T u with
+    | error e' =>
+      simp only [compatibleNames, hq] at h
+      split at h
+      · cases h
+      · cases h; exact quantityOf_error hq
+    | ok q =>
+      obtain ⟨l, hl⟩ := compatibleNames_ok hT hq
+      rw [hl] at h; cases h
+
+/-- with the repair the unit suggestions never make the analysis raise, whatever the tag's unit is -/
+theorem suggestedUnits_ok {E : Env} (hE : EnvWF E) (u : Option String) :
+    ∃ l, suggestedUnits E true u = .ok l := by
+  unfold suggestedUnits
+  cases hc : compatibleNames E.units u with
+  | ok l => exact ⟨l, rfl⟩
+  | error e =>
+    have := compatibleNames_error hE hc
+    subst this
+    exact ⟨[], rfl⟩
 
 theorem areComparable_error {T : UnitSys} (hT : T.WF = true) {a b : Option String} {e : Err}
     (h : areComparable T a b = .error e) : e = .invalidUnit := by
@@ -131,7 +149,7 @@ theorem undefinedTag_item {E : Env} {r : Bool} {an : An} {line : Nat} {name : St
 
 /-- every item `afterTag` produces is an error on the node's line -/
 theorem afterTag_items {E : Env} {an : An} {sim : Bool} {line : Nat} {c : Cond} {name : String} {l : List Item}
-    (h : afterTag E an sim line c name = .ok l) : ∀ i ∈ l, i.line = line ∧ i.isError = true := by
+    {r : Bool} (h : afterTag E r an sim line c name = .ok l) : ∀ i ∈ l, i.line = line ∧ i.isError = true := by
   unfold afterTag at h
   repeat' split at h
   all_goals first
@@ -141,16 +159,16 @@ theorem afterTag_items {E : Env} {an : An} {sim : Bool} {line : Nat} {c : Cond} 
 
 theorem afterTag_ok {E : Env} (hE : EnvWF E) (an : An) (sim : Bool) (line : Nat) (c : Cond) {name : String}
     (hb : isBlank name = false) (hh : E.tags.any (fun t => t.name == name) = true) :
-    ∃ l, afterTag E an sim line c name = .ok l := by
+    ∃ l, afterTag E true an sim line c name = .ok l := by
   obtain ⟨t, hg, ht⟩ := tagsGet_of_any hb hh
-  obtain ⟨valid, hv⟩ := compat_tag_ok hE ht
+  obtain ⟨valid, hv⟩ := suggestedUnits_ok hE t.unit
   unfold afterTag
   simp only [hg, hv]
   repeat' split
   all_goals first
     | exact ⟨_, rfl⟩
-    | (rename_i e he _; have := areComparable_error hE.1 he; contradiction)
-    | (rename_i e he; have := areComparable_error hE.1 he; subst this; contradiction)
+    | (rename_i e he _; have := areComparable_error hE he; contradiction)
+    | (rename_i e he; have := areComparable_error hE he; subst this; contradiction)
     | skip
 
 theorem analyzeTov_items {E : Env} {r : Bool} {an : An} {sim : Bool} {n : Node} {l : List Item}
